@@ -52,3 +52,44 @@ func DayOf(s string) int64 {
 	doe := yoe*365 + yoe/4 - yoe/100 + doy
 	return era*146097 + doe - 719468
 }
+
+// SplitDecimal splits a non-negative decimal number "123.045600" into its integer part and the first three
+// fraction digits read as milliseconds (a shorter fraction is padded with zeros: "1.5" -> 1, 500).
+// Returns (-1, -1) on syntax error.
+func SplitDecimal(s string) (int64, int64) {
+	dot := -1
+	for i := 0; i < len(s); i++ {
+		if s[i] == '.' {
+			dot = i
+			break
+		}
+	}
+	if dot < 0 {
+		n := ParseDecimal(s)
+		if n < 0 {
+			return -1, -1
+		}
+		return n, 0
+	}
+	ip := ParseDecimal(s[:dot])
+	if ip < 0 || dot+1 >= len(s) {
+		return -1, -1
+	}
+	var ms int64
+	for k := 0; k < 3; k++ {
+		ms *= 10
+		if dot+1+k < len(s) {
+			c := s[dot+1+k]
+			if c < '0' || c > '9' {
+				return -1, -1
+			}
+			ms += int64(c - '0')
+		}
+	}
+	for i := dot + 1; i < len(s); i++ {
+		if s[i] < '0' || s[i] > '9' {
+			return -1, -1
+		}
+	}
+	return ip, ms
+}
